@@ -351,6 +351,8 @@ func c07Run(c *Case) []any {
 		opts.SkipSettingDefaults = true
 	case "exclreadonly":
 		opts.ExcludeReadOnlyValidations = true
+	case "nocallback": // Options without an AuthenticationFunc
+		opts.AuthenticationFunc = nil
 	case "nil": // no Options value at all
 		opts = nil
 	}
